@@ -451,6 +451,9 @@ for _id, _prop, _rule, _desc, _eb in [
     ("c04-unswitched-wrong-polarity", "C04", "R04.1", "add_generic_rrlist unswitched on the rdata hint (C04i/3) with the two loops swapped", False),
     ("c07-head-policy-wrong", "C07", "R07.4", "shared head reader (C07i/2) called by read_unsigned with the indefinite-length policy of containers", False),
     ("c07-head-wrong-type", "C07", "R07.4", "shared head reader (C07i/2) called by read_negative with the major type UNSIGNED", False),
+    ("c07-runs-reset-at-refill", "C07", "R07.4", "read_int in runs (C07i/1) that restarts the value at every refill: wrong only for an argument split across refills", False),
+    ("c07-fast-path-little-endian", "C07", "R07.4", "read_int fast path (C07i/1) that assembles the buffered argument least significant byte first", False),
+    ("c07-switch-case-swapped", "C07", "R07.4", "read_int per-width switch (C20i/3) whose 2-byte case swaps the bytes", False),
     ("c14-result-unchecked", "C14", "R14.3", "compressor step reporting through a result struct (C14i/2) whose failure flag write() ignores", False),
     ("c14-result-ok-on-error", "C14", "R14.3", "compressor step reporting through a result struct (C14i/2) that says ok for a refused code", False),
     ("c06-flush-guard-inverted", "C06", "R06.4", "flush_buffer writes only when nothing is staged", False),
